@@ -299,6 +299,12 @@ class _RoundElimInstance(DefaultTransformVisitor):
             # Scope isn't lifted-comparable; conservative skip.
             return False
         scope_af = AbstractFormat.from_format(scope_fmt)
+        if isinstance(e, (Neg, Mul)) and not scope_af.has_neg_zero:
+            # under REAL `-(+0)` and `(-x) * (+0)` are `-0.0`; a scope without
+            # a negative zero rounds that to `+0.0`, so its round is not the
+            # identity even though the abstract result (derived for a system
+            # with a single zero) fits
+            return False
         # ``a < b`` ≡ ``a <= b and a != b`` for AbstractFormat
         # (uses ``__le__`` for the subset check and ``__eq__`` for
         # parameter-shape equality).
